@@ -300,11 +300,14 @@ type c05MP struct{}
 func (c05MP) GetMapping() seq.Mapping { return vfrac.Mapping }
 
 type c05Cluster struct {
-	docs   []refdb.Doc
-	ing    *search.Ingestor
-	stores []*storeapi.Store
-	dirs   []string
+	docs    []refdb.Doc
+	ing     *search.Ingestor
+	stores  []*storeapi.Store
+	dirs    []string
+	clients map[string]pb.StoreApiClient
 }
+
+func (cl *c05Cluster) clientFor(host string) pb.StoreApiClient { return cl.clients[host] }
 
 func buildCluster(ts, part []int, shards, replicas int) *c05Cluster {
 	return buildClusterDocs(c05Docs(ts), part, shards, replicas)
@@ -364,6 +367,7 @@ func buildClusterDocs(docs []refdb.Doc, part []int, shards, replicas int) *c05Cl
 	}
 	hot := &stores.Stores{Shards: shardHosts, Vers: make([]string, len(shardHosts))}
 	empty := &stores.Stores{Shards: [][]string{}, Vers: []string{}}
+	cl.clients = clients
 	cl.ing = search.NewIngestor(search.Config{HotStores: hot, HotReadStores: empty, ReadStores: empty, WriteStores: empty, ShuffleReplicas: true}, clients)
 	return cl
 }
